@@ -53,7 +53,10 @@ def scriptpubkey(data: bytes) -> bytes:
         elif len(witness_program) == 32:
             return p2wsh_script_pubkey(witness_program, witness_version=witness_version)
         else:
-            raise ValueError("bad witness program length")
+            # any other valid witness program (BIP141: 2 to 40 bytes)
+            return p2wpkh_script_pubkey(
+                witness_program, witness_version=witness_version
+            )
     else:
         raise ValueError("data not identified as pubkey, base58check, nor segwit")
 
